@@ -57,6 +57,7 @@ Enc(v, reg, D) ==
     [] v.ty = "unimplementedError" -> Leaf(v.s, v.a, <<>>)
     [] v.ty = "barrierErr" -> Leaf(v.s, <<>>, <<P("EncodedError", <<>>, <<>>, <<Enc(v.hid[1], reg, D)>>, <<>>)>>)
     [] v.ty = "uRegLeaf" -> Leaf(v.s, <<>>, <<P("String", v.s, <<>>, <<>>, <<>>)>>)
+    [] v.ty = "grpcStatus" -> Leaf(Text(v), <<>>, <<P("Status", v.s, <<>>, <<>>, <<>>)>>)
     [] v.ty = "uProtoLeaf" -> Leaf(v.s, <<>>, <<P("uProto", v.s, <<>>, <<>>, <<>>)>>)
     [] v.ty \in LeafTy /\ ~IsWrap(v) -> Leaf(Text(v), <<>>, <<>>)
     \* ---- multi-cause nodes travel as leaves with causes
@@ -113,6 +114,7 @@ Dec(w, known, D) ==
       [] w.fam = "barrierErr" ->
            IF PayT(w) = "EncodedError" THEN V("barrierErr", w.msg, <<>>, <<>>, <<Dec(p.w[1], known, D)>>)
            ELSE OpaqueLeaf
+      [] w.fam = "grpcStatus" -> IF PayT(w) = "Status" THEN V("grpcStatus", p.s, <<>>, <<>>, <<>>) ELSE OpaqueLeaf
       [] w.fam = "uRegLeaf" -> IF PayT(w) = "String" THEN V("uRegLeaf", p.s, <<>>, <<>>, <<>>) ELSE OpaqueLeaf
       [] w.fam = "joinError" ->
            \* Join(causes...) drops nothing here: decoded causes are never nil
